@@ -1,6 +1,5 @@
 //! mode obs: Observable / SharedObservable / write guards / subscribers of the `eyeball` crate
 //! (default lock flavour) at operation granularity.  Mirrors /verif/ocaml/m_obs.ml.
-use crate::common::*;
 use crate::m_adapt::CountWaker;
 use eyeball::{Observable, ObservableWriteGuard, SharedObservable, Subscriber, WeakObservable};
 use futures_core::Stream;
